@@ -212,6 +212,35 @@ def run(rec):
     n = (1 if ref else 3) if quick else (10 if ref else 40)
     for j in range(n):
         instance(rec, mk, rng, heavy=True, base_cache=cache)
+    # thorough tier only: more DISTINCT pairings than a bounded table of recent results could hold, then the first ones again
+    if not quick and not ref and rec.shard < 4:
+        from .common import soak_size, soak_then_reprobe
+        c, pm, pkg = CG.lib(mk)
+        S = CG.suite_of(mk)
+        nsoak = soak_size([CG.cmon.MODULES[mk][1], CG.cmon.MODULES[mk][0]], default=1100, cap=5000)
+        k1, k2 = rng.randrange(1, S.r), rng.randrange(1, S.r)
+        P0, Q0 = S.E1.mul(S.g1, k1), S.E2.mul(S.g2, k2)
+        qo, po_ = CG.to_lib(mk, Q0, 2, rng), CG.to_lib(mk, P0, 1, rng)
+        g2o, g1o = CG.to_lib(mk, S.g2, 2, rng), CG.to_lib(mk, S.g1, 1, rng)
+        seen = {}
+
+        def probe():
+            for name, (a_, b_, kk) in {"base": (qo, po_, k1 * k2), "gen": (g2o, g1o, 1)}.items():
+                st, v = call(pm.pairing, a_, b_)
+                t = tuple(c_ % S.p for c_ in conv.el(v)) if st == "ok" else None
+                if name in seen:
+                    rec.check("B-pair.rep", t == seen[name], "soak", "%s: the same pairing call returns another value after %d distinct pairings" % (mk, nsoak), facts={"impl": mk, "identity": "soak"})
+                seen[name] = t
+            if seen.get("base") and seen.get("gen"):
+                rec.check("B-pair.bilinear", seen["base"] == S.F12.pow(seen["gen"], k1 * k2), "soak", "%s: e(k2 G2, k1 G1) != e(G2, G1)^(k1 k2) after the soak" % mk, facts={"impl": mk, "identity": "soak"})
+
+        def distinct_pairings():
+            Pt = P0
+            while True:
+                Pt = S.E1.add(Pt, S.g1)
+                pl = CG.to_lib(mk, Pt, 1, rng)
+                yield (lambda pl=pl: call(pm.pairing, qo, pl, final_exponentiate=False))
+        soak_then_reprobe(rec, "distinct-pairings", [probe], distinct_pairings(), nsoak)
     # every shard also touches the cheap parts of the other optimized implementation so that class counters do not depend on shard layout
     if not ref:
         instance(rec, mk, rng, heavy=False, base_cache=cache)
